@@ -38,6 +38,24 @@ pseudo-variable `p.f`; it is acquired (Deq) and handed over (Enq) together with 
 can be handed over on its own (sink_write_buffer(wblk->buffer..)).  `p->f = r` attaches r
 (Move p.f r); a second field set to the same r is an alias of the first.
 
+Further rules:
+* `T *q = p;` (declaration initialised with a tracked variable) and a pointer parameter bound to a
+  tracked argument make q a SECOND NAME of p (same variable id, interior pointers `p + 1`, `&p->f`
+  included); neither name may be re-assigned while both are live (refused otherwise).  Any other
+  `q = p` is Move q p.
+* free(p->f) of a sub-object is `Free p.f; Null p.f` (a later use of the dangling p->f in the same
+  thread is NOT flagged; the hand-over of p.f together with p stays possible).  `p = NULL` and
+  `p = malloc` reset the sub-objects of p.
+* primary_thread: must call worker_thread_proc() exactly once and may not touch any object outside
+  that call (its init/uninit phase is ordered by thread creation / joining); it is then the same
+  thread body as a worker and is not emitted separately.
+* pointers handed to functions outside the three files (encode/decode/parse/..., libc) count as an
+  access at the call; those functions are assumed not to keep the pointer.
+* struct bitstream (decode.h) carries pointers into the reference-counted input buffer of expand.c
+  and to its in_blk: values read from it are classified by type only (in_blk = SHARED, data/limit
+  untracked); the buffer contents read by the decoder between attach() and detach() are outside
+  this skeleton.
+
 Refused (Unsupported -> gen_broken): goto, switch, continue in for/do, recursion, a tracked
 pointer stored anywhere but in the places above, pointers to OWN objects read from
 fields / arrays / globals outside the queue macros, conditional expressions yielding
@@ -885,7 +903,7 @@ class FnWalk:
             if b[0] == "deq":
                 # value discarded (or consumed by the caller of rv through pv): only shift() of a
                 # shared-class / untracked queue may be discarded
-                if b[2] in ("own", "struct") and not getattr(self, "_consumed", False):
+                if b[2] in ("own", "struct"):
                     raise Unsupported("%s(%s) whose value is not stored at %s" % (mac, b[1], self.st(e)))
             return ev
         if k == "ImplicitCastExpr":
@@ -960,12 +978,14 @@ class FnWalk:
             self.fr.nest -= 1
 
     def consumed_rv(self, e):
-        old = getattr(self, "_consumed", False)
-        self._consumed = True
-        try:
-            return self.rv(e)
-        finally:
-            self._consumed = old
+        """events of e when its value is consumed by the caller (through pv): only when e IS the
+        expansion of a dequeue-like macro may that macro stand there"""
+        x = self.strip(e)
+        mac = self.macro_of(x)
+        if mac in QUEUE_MACROS:
+            ev, b = self.macro_event(mac, x)
+            return ev
+        return self.rv(e)
 
     # ---------------- assignments
     def local_decl(self, L):
